@@ -92,6 +92,14 @@ class Identifier(Node):
                 tokens = list(
                     utility.flatten(
                         [scope.swap(t) if is_var(t) else t for t in tokens]))
+                # a named argument of a mixin call (`.m(@i: 3)`) is bound as
+                # a definition: what is meant is its value
+                tokens = list(
+                    utility.flatten([
+                        t.tokens[2] if str(type(t)) ==
+                        "<class 'lesscpy.plib.variable.Variable'>" else t
+                        for t in tokens
+                    ]))
             return tokens
 
         parsed = [
